@@ -254,3 +254,43 @@ func walkLockset(fi *FuncInfo, mutex string, guarded map[string]bool, entryHeld 
 	}
 	return w
 }
+
+// varsOfType returns the names of parameters and locals of fi (other than the receiver) whose type is
+// *typeName or typeName (same package as fi).
+func varsOfType(fi *FuncInfo, typeName string) []string {
+	seen := map[string]bool{}
+	var out []string
+	recv := ""
+	if fi.Decl.Recv != nil && len(fi.Decl.Recv.List) == 1 && len(fi.Decl.Recv.List[0].Names) == 1 {
+		recv = fi.Decl.Recv.List[0].Names[0].Name
+	}
+	ast.Inspect(fi.Decl, func(n ast.Node) bool {
+		id, ok := n.(*ast.Ident)
+		if !ok {
+			return true
+		}
+		v, ok := fi.Pkg.TypesInfo.Defs[id].(*types.Var)
+		if !ok || v.IsField() || id.Name == recv || id.Name == "_" {
+			return true
+		}
+		t := v.Type()
+		if p, ok := t.(*types.Pointer); ok {
+			t = p.Elem()
+		}
+		if n, ok := t.(*types.Named); ok && n.Obj().Name() == typeName && n.Obj().Pkg() == fi.Pkg.Types && !seen[id.Name] {
+			seen[id.Name] = true
+			out = append(out, id.Name)
+		}
+		return true
+	})
+	return out
+}
+
+// walkLocksetVar analyses accesses through a named variable (not the receiver) of the guarded type.
+func walkLocksetVar(fi *FuncInfo, varName, mutex string, guarded map[string]bool) *lockWalker {
+	w := &lockWalker{info: fi.Pkg.TypesInfo, mutex: mutex, guarded: guarded, fn: fi.Name(), recvName: varName}
+	if fi.Decl.Body != nil {
+		w.block(fi.Decl.Body.List, lockState{})
+	}
+	return w
+}
